@@ -96,6 +96,23 @@ let handle = function
   | "cl" :: q :: ms ->
     let (l, e) = c10_client (num q) (parse_msgs ms) in
     String.concat "" (List.map (fun b -> if b then "m" else "w") l) ^ (if e then "E" else "C")
+  | ["xl"; q; total; per] ->
+    (* a large AXFR-style stream: S14, O100000 .. O(100000+total-1), S14, [per] records per message *)
+    let total = int_of_string total and per = int_of_string per in
+    let recs = Rec (Soa (n_of_int 14)) :: List.init total (fun i -> Rec (Other (n_of_int (100000 + i)))) @ [Rec (Soa (n_of_int 14))] in
+    let rec chunk l = if l = [] then [] else
+      let rec take n acc l = if n = 0 || l = [] then (List.rev acc, l) else take (n - 1) (List.hd l :: acc) (List.tl l) in
+      let (c, rest) = take per [] l in c :: chunk rest in
+    let ms = List.map (fun c -> { m_hdr = { h_qr = true; h_opcode = n_of_int 0; h_rcode = n_of_int 0; h_tc = false;
+        h_qd = n_of_int 1; h_an = n_of_int (List.length c); h_ns = n_of_int 0; h_qtype = Some (num q) }; m_items = c }) (chunk recs) in
+    let (us, st) = c10_run ms in
+    let da = ref 0 and ad = ref 0 and fi = ref 0 and ot = ref 0 and inorder = ref true and next = ref 100000 in
+    List.iter (function
+      | UDeleteAll -> incr da
+      | UAdd (Other k) -> if int_of_n k <> !next then inorder := false; incr next; incr ad
+      | UFinished _ -> incr fi
+      | _ -> incr ot) us;
+    Printf.sprintf "DA=%d A=%d inorder=%d F=%d other=%d %s" !da !ad (if !inorder then 1 else 0) !fi !ot (show_status st)
   | ["ck"; first; h] -> if c10_check (first = "1") (parse_hdr h) then "reject" else "pass"
   | _ -> failwith "bad case line"
 let () = main handle
